@@ -280,7 +280,7 @@ def slice_bounds(a):
     at = m[0][0]
     def val(x):
         return None if x == ('C', None) else Poly.from_key(x[1])
-    return Poly.from_key(at[2][2]), val(at[3]), val(at[4]), val(at[5])
+    return Poly.from_key(at[3][2]), val(at[4]), val(at[5]), val(at[6])
 
 
 def check_integrate_subset(ctx):
@@ -348,7 +348,7 @@ def check_integrate_subset(ctx):
     okk = False
     if len(h.hstack) == 2:
         sx, sy = slice_bounds(h.hstack[0][1]) if isinstance(h.hstack[0], list) else None, slice_bounds(h.hstack[1][1]) if isinstance(h.hstack[1], list) else None
-        rx, ry = mk_fn('rev', B(N, x)), mk_fn('rev', B(N, y))
+        rx, ry = alg.array_fn('rev', N, x), alg.array_fn('rev', N, y)
         okk = bool(sx and sy and sx[0] == rx and sy[0] == ry)
     ctx.expect(okk, 'CFG-11b', 'decreasing grid reversed together with its values', loc(fi), 'x and y are both reversed before integrating', 'a decreasing grid is not order-normalised consistently', 'grid-reversal')
     # swapped limits
